@@ -385,4 +385,64 @@ theorem resize_eq (env : Env) (v : Vec) (xs : List Id) (newLen : Nat) (value : I
       congr 2
       apply Vec.eq_of <;> simp [Vec.after, dropArg, truncateSpec_escaped]
 
+/-! ## append -/
+
+theorem mapM_init (ys : List Id) :
+    (I ys).mapM (fun s => match s with | Slot.init id => some id | Slot.hole => none) = some ys := by
+  induction ys with
+  | nil => rfl
+  | cons y ys ih => simp [List.mapM_cons, ih]
+
+theorem append_eq (env : Env) (v other : Vec) (xs ys : List Id)
+    (hs : v.slots = I xs ++ H (v.cap - v.len)) (hl : xs.length = v.len)
+    (hso : other.slots = I ys ++ H (other.cap - other.len)) (hlo : ys.length = other.len) :
+    append env v other =
+      .ok (⟨(grown env v other.len).after (appendSpec (room env v other.len) xs ys),
+            (appendSpec (room env v other.len) xs ys).exit, []⟩,
+           appendedOther (room env v other.len) other ys) := by
+  have hcapo := seg_len_le_cap hso hlo
+  unfold append grown room
+  simp only
+  cases hr : reserve env v other.len with
+  | none =>
+    simp only [Option.getD_none, Option.isSome_none, appendSpec, Bool.false_eq_true, ↓reduceIte]
+    have := dropRange_seg env.bombs ys true (setLen other 0) [] (H (other.cap - other.len)) 0 (by simpa [setLen] using hso) rfl
+    rw [← hlo, this]
+    simp only [after_noop hs hl]
+    congr 2
+    apply Vec.eq_of <;> simp [appendedOther, setLen]
+    rw [← H_add]; congr 1; omega
+  | some v' =>
+    have ⟨g, hc⟩ := reserve_some hs hl hr
+    have hlen := g.len
+    simp only [Option.getD_some, Option.isSome_some, appendSpec, ↓reduceIte]
+    have htake : other.slots.take other.len = I ys := by
+      rw [hso, ← hlo]; have : ys.length = (I ys).length := by simp
+      rw [this, List.take_left]
+    rw [htake, mapM_init]
+    simp only
+    rw [if_neg (by omega)]
+    have hdrop : v'.slots.drop v'.len = H (v'.cap - v'.len) := by
+      rw [g.slots, hlen, ← hl]; have : xs.length = (I xs).length := by simp
+      rw [this, List.drop_left]
+    have htk : (v'.slots.drop v'.len).take other.len = H other.len := by
+      rw [hdrop]; simp [H, List.take_replicate]; omega
+    rw [if_neg (by rw [htk]; simp)]
+    congr 2
+    · congr 1
+      apply Vec.eq_of <;> simp [Vec.after, setLen, g.dropLog, g.escaped, hlen, hl, hlo]
+      · have ht : v'.slots.take v.len = I xs := by
+          rw [g.slots, ← hl]; have : xs.length = (I xs).length := by simp
+          rw [this, List.take_left]
+        have hd : v'.slots.drop (v.len + other.len) = H (v'.cap - (xs.length + ys.length)) := by
+          rw [g.slots, ← hl, hlen]; have : xs.length = (I xs).length := by simp
+          rw [← List.drop_drop, this, List.drop_left]
+          simp [H, List.drop_replicate]; congr 1; omega
+        rw [ht, hd]
+    · apply Vec.eq_of <;> simp [appendedOther, setLen]
+      have hd : other.slots.drop other.len = H (other.cap - other.len) := by
+        rw [hso, ← hlo]; have : ys.length = (I ys).length := by simp
+        rw [this, List.drop_left]
+      rw [hd, ← H_add]; congr 1; omega
+
 end Coll
